@@ -299,5 +299,8 @@ def run(tier, seed, replay=None):
     c.notes.append("single-threaded create of the adversarial tree took %.2fs (the first two items dominate); entries per command: %s"
                    % (t_big or -1, ", ".join("%s=%d" % (x, len(ref.get(x, []))) for x in COMMANDS)))
     c.correspondence_py("sched", cases, outcomes, oracle)
+    # the observations behind the five model cases are the real runs
+    c.cov["evaluations"] += stats["runs"] + stats["extract_runs"]
+    c.cov["traces_validated_against_impl"] += stats["runs"] + stats["extract_runs"]
     return c.finish("proof", ["Coq 8.16.1 kernel and VM", "ExtrOcamlBasic extraction + modelrun/driver.ml (cross-checked against kernel evaluation)",
                               "props/C19.py + vlib/cli.py; harness bins dump, mkarchive", "rayon's scope_fifo/spawn_fifo joins before returning (observed, not proved)"])
